@@ -1,10 +1,28 @@
 // api2ir reads package jen of jennifer's CURRENT working tree (go/parser + go/types, offline)
-// and prints coq/Gen/Api.v: one row per exported function and method with its receiver, name,
-// parameter shapes, result type and its body translated into the builder IR of
-// coq/Spec/ApiShape.v; plus the two lists that must stay empty for callbacks to be unable to
-// survive the constructing call: func_fields (struct fields that can hold a function) and
-// go_stmts (go / defer statements, function literals that escape, package variables that can
-// hold a function).
+// and prints coq/Gen/Api.v: one row per exported function and per method with an exported name
+// (of ANY receiver type, exported or not) with its receiver, name, parameter shapes, result type
+// and its body translated into the builder IR of coq/Spec/ApiShape.v; api_structs, the struct
+// types of the package with their embedded types and field names (shape.go structInfos); plus
+// the two lists that must stay empty for callbacks to be unable to survive the constructing
+// call: func_fields (struct fields that can hold a function) and go_stmts (go / defer
+// statements, function literals that escape, package variables that can hold a function).
+//
+// What is read off go/types rather than off the spelling (TRUSTED as far as go/types is):
+//   - the receiver of a row is the receiver's named type as the type checker resolves it
+//     (recvBase): a method declared through a type alias (`type fileT = File;
+//     func (f *fileT) Type()`) is a method of File - that is what the alias means in Go, the
+//     method set it lands in is File's - so it gets its row under File and is judged there.
+//     (Reporting every alias as a problem instead would also be sound but is a deny-list over
+//     spellings; resolving uses the compiler's own notion of identity and covers aliases of
+//     aliases, parenthesised and generic receivers alike.)
+//   - the result is "*Statement" iff there is one result whose type is identical to *Statement
+//     (so `type sp = *Statement; func (s *Statement) X() sp` returns *Statement); otherwise the
+//     printed type(s).
+//   - the embedded types in api_structs are resolved the same way (alias, one pointer).
+//
+// The GoString methods are not builders; their one accepted shape (new bytes.Buffer, render
+// into it, panic on error, return its text) is printed as `BufString buf (call)` (shape.go
+// bufString) and the Coq checker decides whether the call is the receiver's own Render.
 //
 //	api2ir <repo>             print Gen/Api.v
 //	api2ir -registry <repo>   print a Go file mapping every exported package function of jen
@@ -74,7 +92,6 @@ import (
 	"bytes"
 	"fmt"
 	"go/ast"
-	"go/build"
 	"go/build/constraint"
 	"go/format"
 	"go/importer"
@@ -87,6 +104,7 @@ import (
 	"runtime"
 	"sort"
 	"strings"
+	"veriftools/internal/srcset"
 )
 
 func die(format string, a ...interface{}) {
@@ -171,39 +189,54 @@ type row struct {
 	inlined               []string // the helper calls inlined into the body
 }
 
-func recvBase(fd *ast.FuncDecl) (base, self string) {
+// recvBase: the name of the receiver's NAMED type, from go/types (Signature.Recv), so that a
+// receiver written through a type alias (`type fileT = File; func (f *fileT) M()`), in
+// parentheses or with type parameters is the type whose method set gets M - which is how the
+// compiler sees it; and the receiver variable's name.  "?" if go/types has no named receiver
+// type (cannot happen for a method that type-checks).
+func recvBase(fd *ast.FuncDecl, info *types.Info) (base, self string) {
 	if fd.Recv == nil || len(fd.Recv.List) == 0 {
 		return "", ""
 	}
 	f := fd.Recv.List[0]
-	ty := f.Type
-	if st, ok := ty.(*ast.StarExpr); ok {
-		ty = st.X
-	}
-	if ix, ok := ty.(*ast.IndexExpr); ok {
-		ty = ix.X
-	}
-	id, ok := ty.(*ast.Ident)
-	if !ok {
-		return "?", ""
-	}
 	if len(f.Names) == 1 {
 		self = f.Names[0].Name
 	} else {
 		self = "_"
 	}
-	return id.Name, self
+	fn, ok := info.Defs[fd.Name].(*types.Func)
+	if !ok {
+		return "?", self
+	}
+	sig, ok := fn.Type().(*types.Signature)
+	if !ok || sig.Recv() == nil {
+		return "?", self
+	}
+	n := namedOf(sig.Recv().Type())
+	if n == nil {
+		return "?", self
+	}
+	return n.Origin().Obj().Name(), self
 }
 
-// matchFile: is this file part of the package as the go tool builds it here (GOOS, GOARCH,
-// release tags, file name suffixes, //go:build and +build lines; no extra tags, so files
-// guarded by the `verif` tag are left out)?  go/build decides, the same way `go build` does.
-func matchFile(path string) bool {
-	ok, err := build.Default.MatchFile(filepath.Dir(path), filepath.Base(path))
-	if err != nil {
-		die("%s: %v", path, err)
+// namedOf: T for T and *T (aliases resolved at both levels), nil if that is not a named type.
+func namedOf(ty types.Type) *types.Named {
+	ty = types.Unalias(ty)
+	if p, ok := ty.(*types.Pointer); ok {
+		ty = types.Unalias(p.Elem())
 	}
-	return ok
+	n, _ := ty.(*types.Named)
+	return n
+}
+
+// isPtrStatement: is ty identical to *Statement of package jen (types.Identical looks through
+// aliases)?
+func isPtrStatement(pkg *types.Package, ty types.Type) bool {
+	tn, ok := pkg.Scope().Lookup("Statement").(*types.TypeName)
+	if !ok || tn.IsAlias() || ty == nil {
+		return false
+	}
+	return types.Identical(ty, types.NewPointer(tn.Type()))
 }
 
 func main() {
@@ -217,7 +250,7 @@ func main() {
 		die("usage: api2ir [-registry] <repo>")
 	}
 	repo := args[0]
-	names, err := filepath.Glob(filepath.Join(repo, "jen", "*.go"))
+	names, err := srcset.Files(repo)
 	if err != nil || len(names) == 0 {
 		die("no Go files in %s/jen", repo)
 	}
@@ -231,8 +264,8 @@ func main() {
 		if err != nil {
 			die("%v", err)
 		}
-		if f.Name.Name != "jen" || !matchFile(n) {
-			continue
+		if f.Name.Name != "jen" {
+			die("%s: package %s, expected jen", n, f.Name.Name)
 		}
 		files = append(files, f)
 	}
@@ -274,10 +307,9 @@ func main() {
 			if !ok || !ast.IsExported(fd.Name.Name) {
 				continue
 			}
-			base, self := recvBase(fd)
-			if base != "" && !ast.IsExported(base) {
-				continue
-			}
+			// every method with an exported name has a row, whatever its receiver type is called
+			// (an unexported type can be embedded in an exported one and hand its methods on)
+			base, self := recvBase(fd, info)
 			r := row{recv: base, self: self, name: fd.Name.Name, fn: fd}
 			ctx := &rowCtx{info: info, pkg: pkg, decls: decls, used: definedNames(fd)}
 			tr := &translator{ctx: ctx, info: info, pkg: pkg, locals: map[string]bool{}, funcs: map[string]bool{}}
@@ -328,6 +360,14 @@ func main() {
 					}
 				}
 				r.ret = strings.Join(rs, ", ")
+				// "*Statement" is decided by go/types, not by the spelling of the result type
+				if len(rs) == 1 {
+					if isPtrStatement(pkg, info.Types[fd.Type.Results.List[0].Type].Type) {
+						r.ret = "*Statement"
+					} else if r.ret == "*Statement" {
+						r.ret = "*Statement (not the Statement of package jen)"
+					}
+				}
 			}
 			if fd.Body == nil {
 				r.body = "Untranslatable " + cstr("no body")
@@ -345,6 +385,9 @@ func main() {
 						if r.ret == "*Statement" || hasFunc {
 							r.body = "Untranslatable " + cstr(te.msg)
 							r.class = "untranslatable"
+						} else if b := bufString(tr, fd); b != "" {
+							r.body = b
+							r.class = "buf-string"
 						} else {
 							r.body = "Other " + cstr(printNode(fd.Body))
 							r.class = "other"
@@ -478,6 +521,7 @@ func main() {
 		inl = append(inl, fmt.Sprintf("(%s, %s)", cstr(n), clist(ds)))
 	}
 	fmt.Fprintf(out, "(* calls of unexported helpers that the translator replaced by the helper's body (the rule is in\n   the header of tools/cmd/api2ir/main.go), per row, in the order of expansion; informative *)\nDefinition inlined_calls : list (str * list str) := %s.\n\n", clist2(inl))
+	fmt.Fprintf(out, "(* the struct types of the package (go/types): embedded types, other fields *)\nDefinition api_structs : list struct_info := %s.\n\n", clist2(structInfos(pkg, info)))
 	fmt.Fprintf(out, "(* struct fields (and Code implementations) that can hold a function: must be empty *)\nDefinition func_fields : list (str * str) := %s.\n\n", clist(funcFields))
 	fmt.Fprintf(out, "(* go / defer statements, escaping function literals, package variables that can hold a\n   function, in the non-test code: must be empty *)\nDefinition go_stmts : list (str * str) := %s.\n", clist(goStmts))
 }
